@@ -30,6 +30,14 @@ func VH_C07_batch() {
 	vAssume(1 <= N && N <= maxN)
 	N = vConcrete(N)
 	explicitContinue := vNondet[bool]("explicitContinue")
+	// large instances: only one (symbolic) item may fail, so that size thresholds in the dispatch
+	// (chunking, batching of submissions) are reached at an affordable number of paths
+	onlyFail := -1
+	if vParam("oneFail", 0) > 0 {
+		f := vNondet[int]("failingItem")
+		vAssume(0 <= f && f < m.n)
+		onlyFail = vConcrete(f)
+	}
 	exec := func(ctx context.Context, item Result) (Result, error) {
 		k := bIndex(item)
 		var res Result
@@ -40,7 +48,7 @@ func VH_C07_batch() {
 			m.attempts[k]++
 			vAssert(m.okAt[k] == 0, "no-attempt-after-an-items-success")
 			vAssert(m.attempts[k] <= N, "item-attempts-within-budget")
-			if vNondetK[bool]("fail", k*10+m.attempts[k]) {
+			if (onlyFail < 0 || k == onlyFail) && vNondetK[bool]("fail", k*10+m.attempts[k]) {
 				m.lastErr[k] = &vError{id: 500 + k*10 + m.attempts[k]}
 				if vParam("errForms", 0) > 0 && vNondetK[bool]("ctxLookingError", k*10+m.attempts[k]) {
 					// the item's own inner timeout: still just a failed attempt
